@@ -87,6 +87,9 @@ mutual
     | .bool x, .int y => (if x then 1 else 0) == y
     | .int x, .bool y => x == (if y then 1 else 0)
     | .tup xs, .tup ys => Val.pyEqList xs ys
+    -- symbolic results of user functions compare like the tuples of their arguments do
+    | .app f p k v, .app g q l w => f == g && Val.pyEqList p q && k == l && Val.pyEqList v w
+    | .imp f c n p k v, .imp g d m q l w => f == g && c == d && n == m && Val.pyEqList p q && k == l && Val.pyEqList v w
     | x, y => x == y
   def Val.pyEqList : List Val → List Val → Bool
     | [], [] => true
